@@ -163,9 +163,17 @@ def run_case(case, tmp):
     envv.update({"PYSNARK_BACKEND": backend, "QAPTOOLS_BIN": os.path.join(backends.SHIMS, "qapbin"),
                  "PYTHONPATH": backends.REPO + os.pathsep + os.path.join(backends.SHIMS, "fb") + core.COVPATH,
                  "PYTHONDONTWRITEBYTECODE": "1", "PYTHONHASHSEED": core.hashseed_for(case)})
+    # how the script is started: as a file, with interpreter flags, as -c text, as a module, from standard input, through runpy
+    launch = case.get("launch", "file")
+    argv, stdin_text = {"file": (["prog.py"], None), "-i": (["-i", "prog.py"], ""), "-O": (["-O", "prog.py"], None),
+                        "-c": (["-c", "exec(compile(open('prog.py').read(), 'prog.py', 'exec'))"], None),
+                        "-m": (["-m", "prog"], None), "stdin": (["-"], open(os.path.join(tmp, "prog.py")).read()),
+                        "runpy": (["-c", "import runpy; runpy.run_path('prog.py', run_name='__main__')"], None)}[launch]
+    if launch == "-m":
+        envv["PYTHONPATH"] = tmp + os.pathsep + envv["PYTHONPATH"]
     try:
-        r = subprocess.run([sys.executable, "prog.py"], cwd=tmp, env=envv, capture_output=True, text=True,
-                           timeout=120, start_new_session=True)
+        r = subprocess.run([sys.executable] + argv, cwd=tmp, env=envv, capture_output=True, text=True, input=stdin_text,
+                           stdin=None if stdin_text is not None else subprocess.DEVNULL, timeout=120, start_new_session=True)
     except subprocess.TimeoutExpired:
         return "inconclusive", "timeout"
     base = os.path.join(tmp, "out") if chdir else tmp
@@ -183,7 +191,7 @@ def run_case(case, tmp):
     autoprove_label = autoprove
     if autoprove == "off-then-on":
         autoprove = nexec >= 1           # what the switch holds when the script ends
-    tag = "%s on %s (autoprove %s, %d of %d %sstatements executed)" % (mode, backend, autoprove_label if autoprove_label == "off-then-on" else "on" if autoprove else "off", nexec, n,
+    tag = ("" if launch == "file" else "[started with %s] " % launch) + "%s on %s (autoprove %s, %d of %d %sstatements executed)" % (mode, backend, autoprove_label if autoprove_label == "off-then-on" else "on" if autoprove else "off", nexec, n,
                                                                      "" if flavour == "mul" else flavour + " ")
     cnt = json.loads(rd("counts")) if exists("counts") else {"cons": 0, "cons_ab": 0, "vars": 0}
     if flavour == "mul" and (cnt["cons"], cnt["vars"]) != (nexec, 3 * nexec):
@@ -194,7 +202,9 @@ def run_case(case, tmp):
         ok_status = r.returncode in (-2, 130, 1)
         success = False
     else:
-        ok_status = r.returncode == status
+        # python -i: the interpreter reports the exception / ignores the exit request, offers a prompt and, with its input at
+        # end-of-file, leaves with status 0 - the SCRIPT still ended the way the mode says
+        ok_status = r.returncode == (0 if launch == "-i" else status)
         success = status == 0
     if not ok_status:
         return "%s: exit status %r, plain Python gives %r; stderr: %s" % (tag, r.returncode, status, r.stderr.strip()[-200:]), "status"
@@ -319,6 +329,16 @@ def run(ctx):
                 cases.append({"mode": mode, "k": k, "n": n, "backend": backend, "autoprove": ap, "operation": ["prove", "keygen", "verify"][(k + len(mode)) % 3]})
             if k in (0, n) and ap:
                 cases.append({"mode": mode, "k": k, "n": n, "backend": backend, "autoprove": ap, "thread_import": True})
+            if k in (0, n) and ap and MODES[mode][1] != "sigint":
+                # under -i CPython does not act on SystemExit: it hands it to sys.excepthook like any exception and opens the
+                # prompt, so exit requests are outside the domain there; normal ends and real exceptions are in it
+                inspectable = "exit" not in (MODES[mode][0] or "").lower() and len(MODES[mode]) <= 3
+                li = (len(mode) + k + len(backend)) % 6
+                if li == 0 and not inspectable:
+                    li = 1
+                cases.append({"mode": mode, "k": k, "n": n, "backend": backend, "autoprove": ap, "launch": ["-i", "-O", "-c", "-m", "stdin", "runpy"][li]})
+                if li != 0 and inspectable:
+                    cases.append({"mode": mode, "k": k, "n": n, "backend": backend, "autoprove": ap, "launch": "-i"})
             if k == n and ap and backend != "qaptools":      # qaptools opens its (relative) work files when it is initialised
                 cases.append({"mode": mode, "k": k, "n": n, "backend": backend, "autoprove": ap, "chdir": True})
     jobs = [dict(cases=cases[i::16]) for i in range(16)]
